@@ -110,8 +110,7 @@ def run(ctx):
                               {"engine": "BISIM", "enum": name, "input": None}))
     extra_enums = [n for n, c in vars(lsp).items() if isinstance(c, type) and issubclass(c, enum.Enum) and c.__module__ == lsp.__name__
                    and n not in mm.enums and n != "MessageDirection"]
-    for n in extra_enums:
-        res.add(Violation(PROP, "extra-enum", n, "Enum class %s has no enumeration in the metamodel" % n, {"engine": "BISIM", "enum": n, "input": None}))
+    # helper enums the package may add are not the statement's subject (C04 compares the module in both directions)
     # ---- dynamic half: every use site
     sites = enum_sites(mm)
     with mp.get_context("fork").Pool(ctx.workers) as pool:
@@ -140,7 +139,7 @@ def run(ctx):
                 "in the metamodel (property, array element, map key/value, union alternative, params, result) embedded in its minimal owner root x "
                 "every declared value (+ custom values for open enums: %s) must structure and round-trip; closed enums x outside values of the right "
                 "base type must be rejected when MM finds the edited message invalid" % CUSTOM,
-        "enumerations": static, "use_sites": len(sites), "sites_executed": len(table), "sites_without_parse_position": unreachable,
+        "enumerations": static, "enum_classes_without_metamodel_enumeration": extra_enums, "use_sites": len(sites), "sites_executed": len(table), "sites_without_parse_position": unreachable,
         "accept_executions": acc, "reject_executions": rej, "enums_without_reachable_use_site": unused,
         "site_table": table, "exhaustive": True,
         "samples": [r["sample"] for r in results if r["sample"]][:3],
